@@ -7,6 +7,8 @@
 open Analysis_model
 
 let rec nat_of_int i = if i <= 0 then O else S (nat_of_int (i - 1))
+(* indices read back from a dump: anything absurd (e.g. size_t(-1)) becomes a large index *)
+let index_of_string s = match int_of_string_opt s with Some i when i >= 0 && i < 100000 -> i | _ -> 100000
 let rec int_of_nat = function O -> 0 | S n -> 1 + int_of_nat n
 
 (* ------------------------------------------------------------------ parsing *)
@@ -113,11 +115,11 @@ let parse_result (line : string) : result =
     | "true_constant" -> QTrueConst | "variable_based_constant" -> QVarBasedConst | "ode" -> QOde | "nla" -> QNla
     | "algebraic" -> QAlgebraic | "external" -> QExternal | t -> failwith ("bad equation type " ^ t) in
   let states = List.map (fun it -> match String.split_on_char ':' it with
-      | [v; i; ini; es] -> { av_var = parse_vid v; av_type = AState; av_index = nat_of_int (int_of_string i);
+      | [v; i; ini; es] -> { av_var = parse_vid v; av_type = AState; av_index = nat_of_int (index_of_string i);
                              av_init = parse_ovid ini; av_eqs = erefs es }
       | _ -> failwith "bad state item") (items "S") in
   let vars = List.map (fun it -> match String.split_on_char ':' it with
-      | [v; t; i; ini; es] -> { av_var = parse_vid v; av_type = at t; av_index = nat_of_int (int_of_string i);
+      | [v; t; i; ini; es] -> { av_var = parse_vid v; av_type = at t; av_index = nat_of_int (index_of_string i);
                                 av_init = parse_ovid ini; av_eqs = erefs es }
       | _ -> failwith "bad variable item") (items "V") in
   let aeqs = List.mapi (fun i a ->
@@ -153,4 +155,57 @@ let () =
                  | [] -> "WF=ok"
                  | l -> "WF=" ^ String.concat "," (List.map (fun n -> string_of_int (int_of_nat n)) l))
         with Failure m -> "BAD_LINE " ^ m | Invalid_argument m -> "BAD_LINE " ^ m))
+  | "search" ->
+      (* exhaustive search for order dependence: all one-component systems with K classes (each with or without
+         an initial value; the last class is the variable of integration of the ODE shapes) and at most N
+         equations drawn (with repetition) from the shapes
+           a = cn | a = b + cn | a + b = cn | d a/d t = cn | d a/d t = b + cn
+         For each system: the classification (model type, role of every class) under every permutation of the
+         equations.  Prints counts and the smallest order-dependent system. *)
+      let k = int_of_string Sys.argv.(2) and nmax = int_of_string Sys.argv.(3) in
+      let v i = EVar (nat_of_int i) in
+      let t = k - 1 in
+      let shapes = ref [] in
+      for a = 0 to k - 1 do shapes := (v a, ECn) :: !shapes done;
+      for a = 0 to k - 1 do for b = 0 to k - 1 do if a <> b then shapes := (v a, EOp (v b, ECn)) :: !shapes done done;
+      for a = 0 to k - 1 do for b = a to k - 1 do shapes := (EOp (v a, v b), ECn) :: !shapes done done;
+      for a = 0 to k - 2 do shapes := (EDiff (nat_of_int t, nat_of_int a), ECn) :: !shapes done;
+      for a = 0 to k - 2 do for b = 0 to k - 1 do shapes := (EDiff (nat_of_int t, nat_of_int a), EOp (v b, ECn)) :: !shapes done done;
+      let shapes = Array.of_list (List.rev !shapes) in
+      let ns = Array.length shapes in
+      let rec perms = function
+        | [] -> [[]]
+        | l -> List.concat_map (fun x -> List.map (fun p -> x :: p) (perms (List.filter (fun y -> y != x) l))) l in
+      let systems = ref 0 and analyses = ref 0 and dependent = ref 0 and dep_complete = ref 0 and mixed = ref 0 and best = ref None in
+      let classify s = match analyse s with
+        | Done r -> let (ty, roles) = classification s r in
+            Some (ty, List.sort compare (List.map (fun (c, ro) -> (int_of_nat c, ro)) roles))
+        | _ -> None in
+      let rec choose start n acc f = if n = 0 then f (List.rev acc) else
+        for i = start to ns - 1 do choose i (n - 1) (i :: acc) f done in
+      for n = 1 to nmax do
+        choose 0 n [] (fun idxs ->
+          for mask = 0 to (1 lsl k) - 1 do
+            let vars = List.init k (fun i -> { v_name = nat_of_int i; v_cls = nat_of_int i;
+                                               v_init = (if (mask lsr i) land 1 = 1 then IConst else INone) }) in
+            let eqs = List.mapi (fun j i -> let (l, r) = shapes.(i) in { q_id = nat_of_int (1001 + j); q_lhs = l; q_rhs = r }) idxs in
+            incr systems;
+            let results = List.map (fun p -> incr analyses; let s = [{ c_vars = vars; c_eqs = p }] in (s, classify s)) (perms eqs) in
+            let first = snd (List.hd results) in
+            (let cs = List.map (fun (s, _) -> first_pass_complete s = Some true) results in
+             if List.exists (fun x -> x) cs && List.exists (fun x -> not x) cs then incr mixed);
+            if List.exists (fun (_, c) -> c <> first) results then begin
+              incr dependent;
+              let complete = List.exists (fun (s, _) -> first_pass_complete s = Some true) results in
+              if complete then incr dep_complete;
+              (match !best with
+               | Some (m, _) when m <= n -> ()
+               | _ -> best := Some (n, List.map (fun (s, c) -> match c with Some (ty, _) -> mtype ty | None -> "?") results
+                                        |> String.concat "/" |> fun d ->
+                                        Printf.sprintf "inits=%d shapes=%s types=%s" mask (String.concat "," (List.map string_of_int idxs)) d))
+            end
+          done)
+      done;
+      Printf.printf "SEARCH classes=%d max_equations=%d shapes=%d systems=%d analyses=%d order_dependent=%d order_dependent_with_a_complete_first_pass=%d first_pass_completeness_depends_on_order=%d smallest=[%s]\n"
+        k nmax ns !systems !analyses !dependent !dep_complete !mixed (match !best with Some (_, d) -> d | None -> "none")
   | m -> prerr_endline ("unknown mode " ^ m); exit 2
